@@ -442,7 +442,7 @@ fn strategy(tier: Tier) -> BoxedStrategy<Case> {
     let max = if tier == Tier::Quick { 12 } else { 40 };
     // names up to 300 bytes; for the binary paths they are cut to the 255 bytes the format stores
     let cfg = GenCfg::small().terms(2, max).recs(4).standard().with_flags(true).names(NameMode::Rich);
-    let paths = prop_oneof![6 => Just(PathSel::Bin(3)), 2 => Just(PathSel::Bin(2)), 1 => Just(PathSel::Bin(1)), 2 => Just(PathSel::Jax), 1 => Just(PathSel::RoundTrip)];
+    let paths = prop_oneof![6 => Just(PathSel::Bin(3)), 2 => Just(PathSel::Bin(2)), 1 => Just(PathSel::Bin(1)), 2 => Just(PathSel::Jax), 1 => Just(PathSel::JaxT), 1 => Just(PathSel::RoundTrip)];
     (gen::facts(cfg), vec((0usize..EDIT_KINDS.len(), any::<[u16; 3]>(), name_strategy(NameMode::Plain)), 0..=4), paths)
         .prop_map(|(old, script, path)| {
             let mut new = old.clone();
@@ -454,7 +454,7 @@ fn strategy(tier: Tier) -> BoxedStrategy<Case> {
             }
             new.ann_calls = new.canonical_ann_calls();
             let mut old = old;
-            if !matches!(path, PathSel::Jax) {
+            if !matches!(path, PathSel::Jax | PathSel::JaxT) {
                 for f in [&mut old, &mut new] {
                     for t in f.terms.iter_mut() {
                         t.name = char_prefix(&t.name, 255).to_string();
